@@ -41,7 +41,7 @@ class Sandbox:
 
     def start(self, crash=None, memory=False):
         r = subprocess.run([self.exe] + [vlib.hx(p) for p in PROBES], env=self.env(crash, memory), capture_output=True, text=True, timeout=120)
-        answers = [json.loads(l) for l in r.stdout.splitlines() if l.startswith("{")]
+        answers = [json.loads(l) for l in r.stdout.split("\n") if l.startswith("{")]
         return r.returncode, answers
 
     def meta(self):
